@@ -26,8 +26,9 @@ RULES = {
     "R5": "holder persistence and combination: table agreement; same operand order for scores and ids",
     "R6": "CLI wiring of score_chunk / select_next_plate arguments; output str(plate_id) or -1",
     "R7": "the derived screen attributes this property's code relies on (is_observed, unique_plate_ids) have their documented definitions in ScreenBase and every override",
+    "R8": "the view algebra this property's code relies on: plates = one view per unique plate id, get_plate = the rows with that id, subset_(un)observed, combine / concat as unions over one parent (C14.R3 run here)",
 }
-MIN = {"R1": 3, "R2": 2, "R3": 2, "R4": 5, "R5": 5, "R6": 4, "R7": 2}
+MIN = {"R1": 3, "R2": 2, "R3": 2, "R4": 5, "R5": 5, "R6": 4, "R7": 2, "R8": 8}
 TRUSTED = ["np.array_split(L, n)[k] for k in range(n) partitions L (library contract)", "np.argmin returns the first minimum",
            "np.isin(ids, eligible) is an exact membership mask"]
 TECHNIQUE = "def-use slices of the candidate list, relational normal forms of the filters, writer/reader table agreement, argument wiring"
@@ -889,7 +890,12 @@ def r_derived(ctx):
     common.derived_attributes(ctx, "R7", ['is_observed', 'unique_plate_ids'])
 
 
-RULE_FUNCS = [r1, r2, r2b, r3, r4, r5, r6, r_bsearch, r_derived]
+def r_views(ctx):
+    from . import C14
+    ctx.borrow(C14.r3, "R8")
+
+
+RULE_FUNCS = [r1, r2, r2b, r3, r4, r5, r6, r_bsearch, r_derived, r_views]
 
 
 def run(ctx):
